@@ -31,8 +31,10 @@ def gen_history(r, maxlen):
         if k < .3:
             pos = (r.choice(B) if r.random() < .5 else r.randrange(65536), r.choice(B) if r.random() < .5 else r.randrange(65536))
             ops.append(("m",) + pos)
-        elif k < .36:
+        elif k < .33:
             ops.append(("r", r.choice([1, 8, 640]), r.choice([1, 8, 480])))
+        elif k < .36:
+            ops.append(("s",))          # the server sends a cursor shape and a small rectangle (the local image is 4x4)
         elif k < .45:
             ops.append(("c", r.randint(1, 8)))
         elif k < .6:
@@ -82,6 +84,8 @@ def run_impl(ops):
                 d.addCallback(C.mouseUp, op[1])
             elif op[0] == "r":
                 d.addCallback(lambda cl, op=op: (cl.updateDesktopSize(op[1], op[2]), cl)[1])
+            elif op[0] == "s":
+                d.addCallback(lambda cl: (cl.updateCursor(0, 0, 2, 2, bytes(16), b"\xc0\xc0"), cl.updateRectangle(0, 0, 4, 4, bytes(64)), cl)[2])
             else:
                 if op[3] == 1:
                     d.addCallback(C.mouseDrag, op[1], op[2])
@@ -137,7 +141,7 @@ def oracle(ops, res):
         for e in mine:
             if e[1] != 5:
                 return f"op {i} {op}: not a 6-byte PointerEvent: {e}"
-        if op[0] == "r":
+        if op[0] in ("r", "s"):
             want = []          # a desktop-size change sends nothing and leaves position and buttons alone
         elif op[0] == "m":
             pos = (op[1], op[2])
@@ -192,7 +196,7 @@ def oracle(ops, res):
 
 def model_line(ops):
     # desktop-size changes are not pointer operations: the model's pointer state machine never sees them
-    return "ptr " + " ".join(":".join(str(v) for v in op) for op in ops if op[0] != "r")
+    return "ptr " + " ".join(":".join(str(v) for v in op) for op in ops if op[0] not in ("r", "s"))
 
 
 def run(ctx):
